@@ -2,12 +2,12 @@
 from common import *
 
 RULE = ("designed layouts: an enzyme (BsaI / BbsI / BtgZI, each through CutWithEnzymeByName AND CutWithEnzyme, or a custom "
-        "non-palindromic site of 4..8 letters, skip 0..12, overhang 1..6), a sequence of 20..3000 bases (log-uniform) with 0..6 planted "
+        "non-palindromic site of 4..12 letters, skip 0..30, overhang 0..10 - 0 = blunt cutter, incl. coincident forward/reverse cuts), a sequence of 20..3000 bases (log-uniform) with 0..6 planted "
         "sites in either orientation at arbitrary spacing (adjacent sites, paired cuts exactly two overhang lengths apart, cuts leaping "
-        "over neighbouring sites, homopolymer / two-letter / random filler, accidental sites repaired away), random letter case. "
+        "over neighbouring sites, homopolymer / two-letter / random ACGT filler, filler with N / IUPAC codes / U, digits, blanks, accidental sites repaired away), mixed / all-lower / all-upper letter case. "
         "Circular parts: one case = ALL rotations of the plasmid (n <= 300) or the rotations that put the origin at / next to / inside "
         "every site and every cut plus random ones (n > 300); every rotated sequence is produced by the Lean function Spec.rotl. "
-        "Linear parts; case-recasing pairs. Out-of-domain probes (non-directional, palindromic site, overlapping sites, cuts too close, "
+        "Linear parts; case-recasing pairs; `hist` cases (one stored string through circular/linear, directional/non-directional calls in one process). Out-of-domain probes (non-directional, palindromic site, self-overlapping sites and sites overlapping their reverse complement, cuts too close, "
         "tiny and empty sequences, unknown enzyme name) are corresponded but not judged. "
         "non-trivial = at least one site occurrence; distinct by case text")
 EXHAUSTIVE = {"quick": False, "thorough": True}
@@ -39,7 +39,7 @@ def wf(u, site, skip, oh, circular):
     """mirror of DigestSpec.wfLayoutU / wfLinear (the Lean side is the authority; this only steers generation)"""
     m, n = len(site), len(u)
     r = rc(site)
-    if site == r or oh < 1 or m > n:
+    if site == r or (circular and m > n):
         return False
     fo, ro = occurrences(u, site, circular), occurrences(u, r, circular)
     occ = fo + ro
@@ -76,12 +76,34 @@ def wf(u, site, skip, oh, circular):
 
 def custom_enzyme(r):
     while True:
-        site = randword(r, ACGT, r.randint(4, 8))
+        k = r.randint(4, 8) if r.random() < 0.85 else r.randint(9, 12)
+        site = randword(r, ACGT, k)
         if site != rc(site):
             break
-    skip = r.choice([0, 0, 1, 2, 3, 5, 8, 10, 12, r.randint(0, 12)])
-    oh = r.choice([1, 2, 3, 4, 4, 5, 6, r.randint(1, 6)])
+    skip = r.choice([0, 0, 1, 2, 3, 5, 8, 10, 12, r.randint(0, 12), r.randint(13, 30)])
+    oh = r.choice([0, 0, 1, 2, 3, 4, 4, 5, 6, r.randint(0, 6), r.randint(7, 10)])
     return site, skip, oh
+
+
+IUPAC_EXTRA = "NRYSWKMBDHV"
+ODD = "U0123456789 -*."
+
+
+def filler_alphabet(r):
+    mode = r.random()
+    if mode < 0.45:
+        return list(ACGT)
+    if mode < 0.6:
+        return r.sample(ACGT, 2)
+    if mode < 0.7:
+        return [r.choice(ACGT)]
+    if mode < 0.82:
+        return list(ACGT) * 3 + ["N"]                 # a few N
+    if mode < 0.92:
+        return list(ACGT) + list(IUPAC_EXTRA)          # IUPAC ambiguity codes (never match a literal site)
+    if mode < 0.96:
+        return ["N"]
+    return list(ACGT) * 2 + list(ODD)                  # U, digits, blanks, punctuation in the stored string
 
 
 def layout(r, n, site, skip, oh, circular, k, wantwf=True):
@@ -98,8 +120,7 @@ def layout(r, n, site, skip, oh, circular, k, wantwf=True):
     else:
         orient = [r.random() < 0.5 for _ in range(k)]
     for _attempt in range(60):
-        mode = r.random()
-        alpha = ACGT if mode < 0.6 else (r.sample(ACGT, 2) if mode < 0.85 else [r.choice(ACGT)])
+        alpha = filler_alphabet(r)
         u = [r.choice(alpha) for _ in range(n)]
         planted = [False] * n
         # choose gaps: tight ones relative to the pairing rule, zero, or anything
@@ -157,6 +178,57 @@ def layout(r, n, site, skip, oh, circular, k, wantwf=True):
     return None
 
 
+def anycase(r, s):
+    """letter case of the stored string: mixed, all lower, all upper"""
+    t = r.random()
+    if t < 0.6:
+        return randcase(r, s)
+    if t < 0.85:
+        return s.lower()
+    return s.upper()
+
+
+def overlap_probe(r):
+    """OUT-of-domain: site occurrences that overlap one another (self-overlap of a bordered site, or the
+    site overlapping its own reverse complement) - exercises the leftmost non-overlapping scan"""
+    skip, oh = r.randint(0, 6), r.randint(0, 5)
+    if r.random() < 0.5:
+        # bordered site B+Y+B planted as B Y B Y B ...
+        while True:
+            bsz = r.randint(1, 3)
+            site = None
+            bd, y = randword(r, ACGT, bsz), randword(r, ACGT, r.randint(0, 3))
+            site = bd + y + bd
+            if len(site) >= 3 and site != rc(site):
+                break
+        run = (bd + y) * r.randint(2, 6) + bd
+        if r.random() < 0.3:
+            run = rc(run)
+    else:
+        # X + P with P palindromic: site and rc(site) share P
+        while True:
+            half = randword(r, ACGT, r.randint(1, 2))
+            pal = half + rc(half)
+            x = randword(r, ACGT, r.randint(1, 4))
+            site = x + pal
+            if site != rc(site):
+                break
+        run = x + pal + rc(x)
+        if r.random() < 0.5:
+            run = run + r.choice(["", "A", "C"]) + run
+    n = r.randint(max(20, len(run) + 2), 120)
+    u = [r.choice(ACGT) for _ in range(n)]
+    for _ in range(r.randint(1, 3)):
+        p = r.randrange(0, n)
+        for j, c in enumerate(run):
+            u[(p + j) % n] = c
+    u = anycase(r, "".join(u))
+    d = r.choice(["true", "true", "false"])
+    if r.random() < 0.6:
+        return ["circ", "", site, str(skip), str(oh), d, u, "all" if n <= 60 else ",".join(str(r.randrange(n)) for _ in range(12))]
+    return ["lin", "", site, str(skip), str(oh), d, u]
+
+
 def pick_enzyme(r):
     if r.random() < 0.45:
         name = r.choice(list(BUILTIN))
@@ -178,8 +250,8 @@ def special_rotations(r, s, site, skip, oh, extra):
             for d in (-oh - 1, -oh, -1, 0, 1, oh - 1, oh, oh + 1):
                 ks.add((cut + d) % n)
     ks = sorted(ks)
-    if len(ks) > 40:
-        ks = sorted(r.sample(ks, 40))
+    if len(ks) > 120:
+        ks = sorted(r.sample(ks, 120))
     more = [r.randrange(n) for _ in range(extra)]
     return ",".join(str(k) for k in ks + more)
 
@@ -195,7 +267,7 @@ def circ_case(r, nmax, allrot, nmin=20, wantwf=True):
         k = r.choice([0, 1, 1, 2, 2, 2, 3, 3, 4, 5, 6])
         s = layout(r, n, site, skip, oh, True, k, wantwf)
         if s is not None:
-            s = randcase(r, s)
+            s = anycase(r, s)
             rots = "all" if allrot else special_rotations(r, s, site, skip, oh, 4)
             return ["circ"] + enz_fields(name, site, skip, oh) + ["true", s, rots]
     return None
@@ -221,7 +293,7 @@ def lin_case(r, nmax, wantwf=True):
                 cutat = min(len(u), last + len(site) + r.choice([0, 0, 1, 2, oh - 1, oh, skip, skip + oh, 2 * skip + oh]))
                 if cutat >= 20:
                     s = u[:cutat]
-            return ["lin"] + enz_fields(name, site, skip, oh) + ["true", randcase(r, s)]
+            return ["lin"] + enz_fields(name, site, skip, oh) + ["true", anycase(r, s)]
     return None
 
 
@@ -245,11 +317,21 @@ def cases(seed, tier):
         c = circ_case(r, 120 if quick else 300, True)
         if c:
             yield c
-    if not quick:
-        for i in range(60):
-            c = circ_case(r, 300, True, nmin=250)
-            if c:
-                yield c
+    for i in range(4 if quick else 60):
+        c = circ_case(r, 300, True, nmin=200)
+        if c:
+            yield c
+
+    # --- the same stored string through a history of calls (both topologies, both modes) in one process
+    for i in range(40 if quick else 600):
+        c = lin_case(r, 400)
+        if c:
+            u = c[6].upper()
+            name, site, skip, oh = c[1], c[2], int(c[3]), int(c[4])
+            if name:
+                site, skip, oh = BUILTIN[name]
+            if len(u) >= len(site) and wf(u, site, skip, oh, True):
+                yield ["hist"] + c[1:5] + [c[6]]
 
     # --- larger plasmids, origin at / next to / inside every site and cut
     nbig = 260 if quick else 8000
@@ -280,8 +362,12 @@ def cases(seed, tier):
             yield ["case"] + c[1:6] + ["true" if circ else "false", s, randword(r, "ul", r.randint(1, 7))]
 
     # --- out-of-domain probes: corresponded (panics included), not judged
-    nood = 150 if quick else 2500
+    nood = 220 if quick else 3500
     for i in range(nood):
+        t = r.random()
+        if t < 0.3:
+            yield overlap_probe(r)
+            continue
         t = r.random()
         if t < 0.35:
             # non-directional
@@ -338,17 +424,21 @@ TECHNIQUE = ("Lean 4 proof: CutWithEnzyme modelled statement by statement (doubl
              "stable sort, pairing loop, slicing with Go bounds) and proved equal, as a multiset, to an independent cyclic-word spec; "
              "differential correspondence over every rotation")
 LEVEL_TEXT = ("Kernel-checked theorems about the statement-by-statement model of CutWithEnzyme, for sequences of every length, every "
-              "rotation offset and every non-palindromic ACGT site / skip / overhang >= 1: spec_rotation (the cyclic-word digestion is "
+              "rotation offset and every non-palindromic ACGT site / skip / overhang length (0 included): spec_rotation (the cyclic-word digestion is "
               "invariant under moving the origin), cut_circular (on every layout of the quantifier the code's fragments are, as a multiset, "
               "exactly the spec's: forward cut to the next cut when that is a reverse cut), cut_rotation_independent (hence the code's multiset "
               "is the same at every rotation), cut_geometry (offsets of both overhangs, stretch between the two cuts, no other cut inside), "
-              "cut_linear_inside (every fragment of a linear part is a contiguous piece of it, any enzyme, directional or not), cut_linear / "
-              "cut_linear_geometry (the same exactness and offsets for linear parts, read without wrap-around), cut_case, "
+              "cut_linear / cut_linear_geometry (the same exactness and offsets for linear parts, read without wrap-around: no panic, no lost "
+              "fragment, every fragment inside the part - this is the content of the linear clause, under wfLinear), cut_linear_inside (a weaker "
+              "remark for ALL inputs: whenever a linear call returns, every fragment is a contiguous piece of the sequence - true by the slicing "
+              "discipline of the model, as it is a language guarantee in Go; outside wfLinear a linear call may still panic, e.g. paired cuts closer "
+              "than two overhang lengths or the non-directional single-cut branch with a cut in the last bases, and nothing is claimed there), cut_case, "
               "builtin_pinned / byName_eq (the built-in table is the REBASE geometry). The model is tied to clone.CutWithEnzyme by correspondence "
               "on every generated case (fragment lists in order, panics included, ByName = direct call), and every real output is judged against "
               "the spec as a multiset at every rotation (exhaustive over all rotations for plasmids up to 300 bases in the thorough tier).")
 LEVEL_NOTE = ("Trusted: Lean kernel; harness + pm_C10; REBASE geometries typed by hand in Spec/Digest.lean; Go regexp on a literal site "
-              "modelled as a leftmost non-overlapping scan (corresponded on every case, incl. self-overlapping sites outside the quantifier); "
+              "modelled as a leftmost non-overlapping scan (corresponded on every case; a dedicated out-of-domain probe family plants self-overlapping "
+              "sites and sites overlapping their reverse complement, about 6% of the quick tier); correspondence compares fragment lists as multisets; "
               "ASCII input; the complement table behind IsPalindromic is regenerated from the code on every run.")
 HARNESS_BIN = "run-clone"
 EXTRACT_BINS = ["extract-seq"]
